@@ -138,6 +138,13 @@ func (f *FileOutputHandler) Load(
 	if err := os.MkdirAll(filepath.Dir(absOutputPath), 0755); err != nil {
 		return err
 	}
+	// Whatever sits at the output path that is not a regular file (a directory, a symlink) is replaced:
+	// creating the file would fail on a directory and write through a symlink into another file
+	if info, err := os.Lstat(absOutputPath); err == nil && !info.Mode().IsRegular() {
+		if err := os.RemoveAll(absOutputPath); err != nil {
+			return err
+		}
+	}
 	outputFile, err := os.Create(absOutputPath)
 	if err != nil {
 		return err
